@@ -46,6 +46,8 @@ type callRecorder struct {
 	inner transport.TransportHandler
 	est   int
 	lost  int
+	// links: the quic links reported established, in the order of the calls
+	links []*transport_quic.Link
 	// pump: without a controller nobody accepts streams and notices that
 	// the session died; the recorder then runs the accept loop itself and
 	// closes a dead link like the controller would.
@@ -55,6 +57,8 @@ type callRecorder struct {
 func (r *callRecorder) HandleLinkEstablished(lnk link.Link) {
 	r.mu.Lock()
 	r.est++
+	ql, _ := lnk.(*transport_quic.Link)
+	r.links = append(r.links, ql)
 	in, pump := r.inner, r.pump
 	r.mu.Unlock()
 	if in != nil {
@@ -168,10 +172,14 @@ type QuicCase struct {
 	mu       sync.Mutex
 	connects int
 	remotes  []*QuicRemote
+	keeps    []*Watch
 }
 
 // QuicRemote is one remote transport instance.
 type QuicRemote struct {
+	// Index: the instance is the Index-th (0-based) successful Connect of the
+	// case; QuicCase.LocalLink(Index) is the local end of its session.
+	Index  int
 	Name   string
 	ID     *keys.Identity
 	EP     *Endpoint
@@ -238,7 +246,12 @@ func NewQuicCase(local *keys.Identity) (*QuicCase, error) {
 func (q *QuicCase) Close() {
 	q.mu.Lock()
 	rs := q.remotes
+	ks := q.keeps
+	q.keeps = nil
 	q.mu.Unlock()
+	for _, k := range ks {
+		k.Release()
+	}
 	for _, r := range rs {
 		r.cancel()
 		_ = r.EP.Close()
@@ -258,7 +271,23 @@ func (q *QuicCase) Close() {
 // Connect starts a new remote transport for the identity on a new endpoint
 // whose home address is home (taking that address over from any earlier
 // endpoint) and dials L. Returns once the remote side has its link.
+//
+// Connects of one case must not overlap. Before dialing, Connect waits until
+// the local transport has reported one link per earlier Connect, so that the
+// order of the local HandleLinkEstablished calls is the order of the Connects
+// (LocalLink relies on it).
 func (q *QuicCase) Connect(name string, id *keys.Identity, home string) (*QuicRemote, error) {
+	deadline := time.Now().Add(Watchdog)
+	for {
+		est, _ := q.Rec.counts()
+		if est >= q.Connects() {
+			break
+		}
+		if time.Now().After(deadline) {
+			return nil, errors.New("the local transport never reported the link of an earlier connect")
+		}
+		time.Sleep(200 * time.Microsecond)
+	}
 	rctx, cancel := context.WithCancel(q.Ctx)
 	ep := q.Net.NewEndpoint(home)
 	rec := &callRecorder{pump: true}
@@ -278,10 +307,54 @@ func (q *QuicCase) Connect(name string, id *keys.Identity, home string) (*QuicRe
 	}
 	qr := &QuicRemote{Name: name, ID: id, EP: ep, Tpt: tpt, Link: lnk, cancel: cancel}
 	q.mu.Lock()
+	qr.Index = q.connects
 	q.connects++
 	q.remotes = append(q.remotes, qr)
 	q.mu.Unlock()
 	return qr, nil
+}
+
+// LocalLink returns the local end of the session of the idx-th successful
+// Connect (the idx-th link the local quic transport reported established), or
+// nil while the transport has not reported it yet.
+func (q *QuicCase) LocalLink(idx int) *transport_quic.Link {
+	q.Rec.mu.Lock()
+	defer q.Rec.mu.Unlock()
+	if idx < 0 || idx >= len(q.Rec.links) {
+		return nil
+	}
+	return q.Rec.links[idx]
+}
+
+// LocalLinks returns every link the local quic transport reported established
+// so far, in the order of the reports.
+func (q *QuicCase) LocalLinks() []*transport_quic.Link {
+	q.Rec.mu.Lock()
+	defer q.Rec.mu.Unlock()
+	return append([]*transport_quic.Link(nil), q.Rec.links...)
+}
+
+// AllTold reports whether the local transport reported one link per
+// successful Connect.
+func (q *QuicCase) AllTold() bool {
+	est, _ := q.Rec.counts()
+	return est >= q.Connects()
+}
+
+// Keep holds a reference to EstablishLinkWithPeer(local, p) for the rest of the
+// case, like an application that wants links with p: without any reference the
+// controller closes every link with p as soon as one of them is lost (the
+// shared directive is disposed), so a replacement link never outlives the link
+// it replaced.
+func (q *QuicCase) Keep(p peer.ID) error {
+	wa, err := q.World.NewWatch(q.Local.ID, p)
+	if err != nil {
+		return err
+	}
+	q.mu.Lock()
+	q.keeps = append(q.keeps, wa)
+	q.mu.Unlock()
+	return nil
 }
 
 // CloseLink closes the remote side's link (orderly close).
